@@ -44,11 +44,120 @@ func (s *State) intRange(v AV) (lo, hi int64, zeroExcluded bool) {
 		return c, c, c != 0
 	}
 	if sy, ok := v.(avSym); ok {
-		if f := s.ints[sy.id]; f != nil {
+		if f := s.ints[s.idOf(sy)]; f != nil {
 			return f.lo, f.hi, f.neq[0] || f.lo > 0 || f.hi < 0
 		}
 	}
 	return math.MinInt64, math.MaxInt64, false
+}
+
+// indexFacts: what the interpretation of the bracket-specifier parser establishes about values that flow from its
+// tests to its results through locals, struct fields or helpers: used by dataflow rules when the test and the use are
+// no longer in one function.
+type indexFacts struct {
+	why        string
+	entered    map[*ssa.Function]bool
+	paths      int
+	stepOK     bool
+	stepDetail string
+	conv       map[token.Pos]*convFact
+}
+
+type convFact struct {
+	seen   int
+	lo, hi int64
+}
+
+func (p *Program) indexParserFacts() *indexFacts {
+	if p.memoIndexFacts != nil {
+		return p.memoIndexFacts
+	}
+	f := &indexFacts{entered: map[*ssa.Function]bool{}, conv: map[token.Pos]*convFact{}, stepOK: true}
+	p.memoIndexFacts = f
+	d := newParserDom(p)
+	if d.why != "" {
+		f.why = d.why
+		return f
+	}
+	fn := d.inferRoles().index
+	if fn == nil {
+		f.why = "no bracket-specifier parser"
+		return f
+	}
+	for _, withChild := range []bool{false, true} {
+		e, st := d.start(fn)
+		e.TraceConv = true
+		e.Entered = f.entered
+		var child AV = avNil{}
+		if withChild {
+			child = avSym{id: e.fresh(), tag: "child", nonNil: true}
+		}
+		outs := e.Run(fn, []AV{avPtr{d.pobj, ""}, child}, st)
+		if e.Aborted != "" {
+			f.why = "path enumeration aborted: " + e.Aborted
+			return f
+		}
+		for _, o := range outs {
+			if o.Panic || o.Cut {
+				f.why = "a path of the bracket-specifier parser ends in a panic or an unexpected loop"
+				return f
+			}
+			if len(o.Res) < 2 || !isDefNil(o.Res[len(o.Res)-1]) {
+				continue
+			}
+			f.paths++
+			var visit func(v AV, depth int)
+			visit = func(v AV, depth int) {
+				if depth > 3 {
+					return
+				}
+				for name, fv := range o.St.fieldsOf(v) {
+					if name == "Step" {
+						if _, _, nz := o.St.intRange(fv); !nz {
+							f.stepOK = false
+							f.stepDetail = fmt.Sprintf("%s: the path returning at %s builds a node whose Step (%s) is not known to be non-zero", p.FuncName(fn), p.Fset.Position(o.Ret.Pos()), avKey(fv))
+						}
+						continue
+					}
+					if dynName(fv) != "" {
+						visit(fv, depth+1)
+					}
+				}
+			}
+			visit(o.Res[0], 0)
+			for _, ev := range o.St.Trace {
+				if ev.Kind != "conv" {
+					continue
+				}
+				lo, hi, _ := o.St.intRange(ev.Args[0])
+				cf := f.conv[ev.Pos]
+				if cf == nil {
+					cf = &convFact{lo: lo, hi: hi}
+					f.conv[ev.Pos] = cf
+				}
+				cf.seen++
+				cf.lo, cf.hi = min(cf.lo, lo), max(cf.hi, hi)
+			}
+		}
+	}
+	return f
+}
+
+// onlyCalledWithin: every static call site of fn lies in one of the functions of set (or fn has none and is in set).
+func onlyCalledWithin(fn *ssa.Function, set map[*ssa.Function]bool) bool {
+	if !set[fn] {
+		return false
+	}
+	for _, s := range callSitesOf(fn) {
+		caller := s.Parent()
+		for caller != nil && caller.Parent() != nil {
+			caller = caller.Parent()
+		}
+		if caller == nil || !set[caller] {
+			return false
+		}
+	}
+	return true
 }
 
 func ruleTIndex(p *Program, r *Reporter) {
@@ -585,7 +694,9 @@ func ruleTFunc(p *Program, r *Reporter) {
 				continue
 			}
 			want := ""
-			may := func(it patItem, tok string) bool { return it.Type == tok+"Token" || (it.Type == "" && !excludes(it, tok)) }
+			may := func(it patItem, tok string) bool {
+				return it.Type == tok+"Token" || (it.Type == "" && !excludes(it, tok))
+			}
 			switch {
 			case !expectArg && may(curr, "CloseParen") && k < spec.min,
 				expectArg && len(args) == 0 && may(curr, "CloseParen"):
@@ -634,7 +745,6 @@ func excludes(it patItem, tok string) bool {
 	}
 	return false
 }
-
 
 // variadicRejectsEmptyTPI: for every variadic built-in of the specification, no path of the function-call parser accepts
 // an empty argument list (decided by path enumeration with the name pinned, as T-FUNC does).
